@@ -665,6 +665,9 @@ set_memory_constraints(void)
     in_granul = 32768u;
     out_granul = 900000u;
   }
+#ifdef KJN_LBZIP2_VERIF
+  vh_granul(decompress, &in_granul, &out_granul);
+#endif
 }
 
 
